@@ -10,6 +10,7 @@ def register(db):
     register_wsdl_parts(db)
     register_map_binding(db)
     register_operation_messages(db)
+    register_envelope_class(db)
     P = ["C17"]
     assume_method(db, "Transport", "post", returns="u:Bytes", pure=True, raises=["ConnectionError"] if False else [])
     assume_method(db, "XmlParserObj", "from_bytes", returns="u:Any", pure=True, raises=["ParserError"])
@@ -243,4 +244,62 @@ def register_operation_messages(db):
         ensures=[("one-envelope-with-fault", f"called('{EC}') == 1 and called('{FC}') == 1 and len(result) == 1"),
                  ("output-envelope-takes-the-message-name", OUT.format(n=0))],
         raises={"CodegenError": True, "StopIteration": True}, properties=["C17"],
+    ))
+
+
+def register_envelope_class(db):
+    """DefinitionsMapper.build_envelope_class: every soap extension of a binding message (soap:body, each soap:header,
+    ...) contributes its parts to the inner class of its kind (Body, Header) - contributions of several extensions of the
+    same kind accumulate, none replaces what an earlier one put there."""
+    DM = "xsdata.codegen.mappers.definitions:DefinitionsMapper"
+    MODELS = "xsdata.codegen.models"
+    collab.field(db, "BindingMessage", "extended_elements", "seq[u:AnyElement]")
+    collab.field(db, "BindingMessage", "location", "str|None")
+    collab.field(db, "BindingMessage", "ns_map", "u:PyDict")
+    collab.field(db, "PortTypeMessage", "message", "str")
+    collab.field(db, "Definitions", "target_namespace", "str|None")
+    collab.field(db, "AnyElement", "qname", "nonempty-str")  # asserted non-None by the function; assumed: parsed elements have a name
+    collab.field(db, "AnyElement", "attributes", "u:PyDict")
+
+    def plain(fields):
+        def ctor(ex, st, cref, args, kwargs):
+            from pyvc.values import Obj
+            o = Obj(f"{cref.module}:{cref.qualname}", dict(kwargs))
+            yield st, st.alloc(o)
+        return ctor
+
+    db.ctors[(MODELS, "Class")] = plain([])
+
+    def inner_class(mk, base):
+        return mk.obj(f"{MODELS}:Class", {"attrs": "opaque:PyList", "ns_map": "opaque:PyDict"})
+
+    db.add(Contract(f"{DM}.build_inner_class", variant="call-view", trusted=True, call_default=True, params={}, returns=inner_class,
+                    raises={}, note="call-site view: the (new or existing) inner class of that name, with its attribute list"))
+    db.add(Contract(f"{DM}.map_port_type_message", variant="call-view", trusted=True, call_default=True, params={},
+                    returns="seq[u:Attr]", raises={}))
+    db.add(Contract(f"{DM}.map_binding_message_parts", variant="call-view", trusted=True, call_default=True, params={},
+                    returns="seq[u:Attr]", raises={"CodegenError": True},
+                    note="call-site view (the function itself is verified against its part-selection contracts)"))
+
+    def the_class(mk, base):
+        from pyvc.values import ClassRef
+        return ClassRef("xsdata.codegen.mappers.definitions", "DefinitionsMapper")
+
+    BIC, MP, MR = (f"DefinitionsMapper.{m}" for m in ("build_inner_class", "map_binding_message_parts", "map_port_type_message"))
+    db.add(Contract(
+        f"{DM}.build_envelope_class", variant="extensions-accumulate",
+        params={"cls": the_class, "definitions": "opaque:Definitions", "binding_message": "opaque:BindingMessage",
+                "port_type_message": "opaque:PortTypeMessage", "name": "str", "style": "str", "namespace": "str|None", "operation": "str|None"},
+        requires=["len(name) > 0"],
+        ensures=[("envelope-class-of-the-binding-message", "result.meta_name == 'Envelope' and result.ns_map is binding_message.ns_map")],
+        raises={"CodegenError": True, "AssertionError": True},
+        loops=[Loop(invariants=[], header="binding_message.extended_elements", vars={"namespace": "str|None"},
+                    step=[("one-inner-class-per-extension-named-after-it", f"called('{BIC}') == 1 and call_arg('{BIC}', 1) is target"),
+                          ("parts-come-from-exactly-one-mapper", f"called('{MP}') + called('{MR}') == 1"),
+                          ("the-parts-are-added-to-what-the-inner-class-already-holds",
+                           f"called('PyList.extend') == 1 and call_recv('PyList.extend') is call_result('{BIC}').attrs"),
+                          ("message-parts-are-resolved-in-the-inner-class-scope",
+                           f"implies(called('{MP}') == 1, call_arg('{MP}', 3) is ext and call_arg('{MP}', 4) is call_result('{BIC}').ns_map "
+                           f"and call_arg('{MP}', 2) == port_type_message.message)")])],
+        properties=["C17"],
     ))
